@@ -372,8 +372,8 @@ func (m *Model) RunErrLine(s *Sink, rule string) {
 			if !isC || !isEvalCall(m, c) {
 				return
 			}
-			if nc, isN := resolve(c.Call.Args[0]).(*ssa.Call); isN && nc.Call.StaticCallee() != nil && canonFnName(nc.Call.StaticCallee()) == "New" && inPkg(nc.Call.StaticCallee(), "evaluator") {
-				if cc, isCC := resolve(nc.Call.Args[0]).(*ssa.Call); isCC && cc.Call.StaticCallee() != nil && canonFnName(cc.Call.StaticCallee()) == "NewContext" {
+			if nc, isN := m.throughCtor(resolve(c.Call.Args[0])).(*ssa.Call); isN && nc.Call.StaticCallee() != nil && canonFnName(nc.Call.StaticCallee()) == "New" && inPkg(nc.Call.StaticCallee(), "evaluator") {
+				if cc, isCC := m.throughCtor(resolve(nc.Call.Args[0])).(*ssa.Call); isCC && cc.Call.StaticCallee() != nil && canonFnName(cc.Call.StaticCallee()) == "NewContext" {
 					ok = true
 				}
 			}
@@ -1380,4 +1380,93 @@ func (m *Model) RunProgPathPairs(s *Sink, rule string) {
 		// there is nothing to mismatch; the count is in the evidence
 		s.Note(rule, "program/path pairs", "-", "no call hands a program parsed on the spot, together with a path, to a function that reports errors with them (on the pinned tree parsePrograms -> applyComponentToProgram is the instance)")
 	}
+}
+
+// RunErrKeep: the parser's list of errors only grows at its end. The callers report the first entry, so the error
+// of the first broken construct stays the one reported: every store into a field of parser.Parser whose type is a
+// slice of *fail.Error — outside the constructor — is `field = append(field, ...)` on the same parser.
+func (m *Model) RunErrKeep(s *Sink, rule string) {
+	pT := m.namedType("parser", "Parser")
+	if pT == nil {
+		s.Undecided(rule, "parser.Parser", "-", "type not found")
+		return
+	}
+	isErrList := func(t types.Type) bool {
+		sl, ok := t.Underlying().(*types.Slice)
+		if !ok {
+			return false
+		}
+		nt := ptrNamed(sl.Elem())
+		return nt != nil && nt.Obj().Pkg() != nil && shortPkg(nt.Obj().Pkg().Path()) == "fail"
+	}
+	n, bad := 0, 0
+	for _, fn := range m.ModFns {
+		if fn.Blocks == nil || isUserPkg(fnPkgPath(fn)) {
+			continue
+		}
+		for _, b := range fn.Blocks {
+			for _, in := range b.Instrs {
+				st, ok := in.(*ssa.Store)
+				if !ok {
+					continue
+				}
+				fa, ok := st.Addr.(*ssa.FieldAddr)
+				if !ok {
+					continue
+				}
+				if pn := ptrNamed(fa.X.Type()); pn == nil || !types.Identical(pn, pT) || !isErrList(st.Val.Type()) {
+					continue
+				}
+				if _, fresh := fa.X.(*ssa.Alloc); fresh {
+					continue // the parser under construction
+				}
+				n++
+				key := fmt.Sprintf("%s|the parser's error list only grows at its end", fnKey(fn))
+				good := false
+				if c, isC := st.Val.(*ssa.Call); isC {
+					if bi, isB := c.Call.Value.(*ssa.Builtin); isB && bi.Name() == "append" && len(c.Call.Args) >= 1 {
+						if ld, isLd := c.Call.Args[0].(*ssa.UnOp); isLd && ld.Op == token.MUL {
+							if fa2, isFA := ld.X.(*ssa.FieldAddr); isFA && fa2.Field == fa.Field && fa2.X == fa.X {
+								good = true
+							}
+						}
+					}
+				}
+				if good {
+					s.OK(rule, key, m.InstrPos(st), "append(p.%s, ...) stored back", fieldName(fa.X.Type(), fa.Field))
+				} else {
+					bad++
+					s.Violation(rule, key, m.InstrPos(st), "%s stores %s into the parser's error list: the callers report the first entry, which must stay the error of the first broken construct (its message, its line); emptying, truncating or reordering the list makes a later error — one that only follows from the first — the reported one", fnKey(fn), valueDesc(st.Val))
+				}
+			}
+		}
+	}
+	if n == 0 {
+		s.Undecided(rule, "parser.Parser|error list", "-", "no store into an error list of the parser found")
+	}
+}
+
+// throughCtor: a value that is the result of a module helper whose every return hands back one and the same call
+// (`func newEvaluator(p string) *Evaluator { return evaluator.New(ctx.NewContext(p, ...)) }`) stands for that call.
+func (m *Model) throughCtor(v ssa.Value) ssa.Value {
+	for d := 0; d < 3; d++ {
+		c, ok := v.(*ssa.Call)
+		if !ok || c.Call.StaticCallee() == nil || !m.InModule(c.Call.StaticCallee()) {
+			return v
+		}
+		callee := c.Call.StaticCallee()
+		if n := canonFnName(callee); (n == "New" && inPkg(callee, "evaluator")) || n == "NewContext" {
+			return v
+		}
+		rs := m.returnedAt(callee, 0)
+		if len(rs) != 1 || callee.Signature.Results().Len() != 1 {
+			return v
+		}
+		inner, isCall := rs[0].(*ssa.Call)
+		if !isCall {
+			return v
+		}
+		v = inner
+	}
+	return v
 }
